@@ -1,2 +1,45 @@
-From Coq Require Import ZArith List.
+(* C08 — non-vacuity examples for the hypotheses of Props.v, and refutation witnesses *)
+From Coq Require Import ZArith List Lia.
 From FV Require Import Lib.RustInt C08.Model C08.Proofs.
+Import ListNotations.
+Open Scope Z_scope.
+
+(* a mapping with an ordered run, a reversed run (range-offset segment), a wrapped negative delta,
+   a segment ending at 0xFFFE, and supplementary characters: the hypotheses of cmap4_answers /
+   cmap12_answers / subtable_choice hold of it and both subtables exist *)
+Definition ex_input : list (Z * Z) :=
+  [(65, 3); (66, 4); (67, 5); (97, 30); (98, 29); (99, 28); (65533, 7); (65534, 8); (40000, 2);
+   (65536, 100); (65537, 101); (128512, 9); (1114111, 10); (66, 4)].
+
+Example ex_valid : valid_input ex_input.
+Proof. unfold ex_input, valid_input. repeat constructor; cbn; lia. Qed.
+
+Example ex_built : exists t4 gs, from_mappings ex_input = Built (Some t4) (Some gs)
+  /\ startc t4 = [65; 97; 40000; 65533; 65535] /\ endc t4 = [67; 99; 40000; 65534; 65535]
+  /\ deltas t4 = [-62; 0; 25538; 10; 1] /\ roffs t4 = [0; 8; 0; 0; 0] /\ gida t4 = [30; 29; 28]
+  /\ gs = [(65, 67, 3); (97, 97, 30); (98, 98, 29); (99, 99, 28); (40000, 40000, 2); (65533, 65534, 7);
+           (65536, 65537, 100); (128512, 128512, 9); (1114111, 1114111, 10)].
+Proof. eexists. eexists. vm_compute. repeat split; reflexivity. Qed.
+
+Example ex_lookup : forall t4 gs, from_mappings ex_input = Built (Some t4) (Some gs) ->
+  cmap4_map t4 98 = Some 29 /\ cmap4_map t4 100 = None /\ cmap12_map gs 1114111 = Some 10.
+Proof. intros t4 gs H. vm_compute in H. inversion H; subst. vm_compute. auto. Qed.
+
+(* F-2: one valid pair, builder panics (the model's panic site = i16 conversion in create_format_4) *)
+Example f2_witness : from_mappings [(65, 40000)] = Panic.
+Proof. vm_compute. reflexivity. Qed.
+(* the smallest delta that panics, and its neighbours that do not *)
+Example f2_boundary : delta_i16 32767 = Some 32767 /\ delta_i16 32768 = None /\ delta_i16 65535 = None
+                      /\ delta_i16 (-32768) = Some (-32768) /\ delta_i16 (-32769) = Some 32767.
+Proof. vm_compute. auto. Qed.
+
+(* a conflict is reported with the smaller glyph id first *)
+Example ex_conflict : from_mappings [(65, 9); (66, 1); (65, 4)] = Conflict 65 4 9.
+Proof. vm_compute. reflexivity. Qed.
+
+(* Charmap::mappings with the limits skrifa passes omits U+10FFFF (Cmap12IterLimits.max_char is
+   used as an exclusive bound): the model reproduces the implementation's behaviour *)
+Example charmap_mappings_drops_10FFFF :
+  charmap_mappings (records_of None (Some [(1114110, 1114111, 5)])) 10 = [(1114110, 5)]
+  /\ charmap_map (records_of None (Some [(1114110, 1114111, 5)])) 1114111 = Some 6.
+Proof. vm_compute. auto. Qed.
